@@ -274,9 +274,6 @@ func CompareEntry(c *cat.Catalog, dry bool, idx int, want, got *Entry) []Diverge
 			add("exec.outcome", fmt.Sprintf("%s: %s#%d outcome want %s got %s", ctx, k.F, k.N, w.O, g.O), false)
 		}
 		fn := c.Fns[k.F]
-		if got.NoArgs {
-			continue
-		}
 		for j := range fn.Ps {
 			var wa, ga []univ.Prov
 			if j < len(w.Args) {
@@ -284,6 +281,19 @@ func CompareEntry(c *cat.Catalog, dry bool, idx int, want, got *Entry) []Diverge
 			}
 			if j < len(g.Args) {
 				ga = g.Args[j]
+			}
+			if got.NoArgs {
+				// values identified by pointer only: compare the parameters all of whose values
+				// were identified
+				known := j < len(g.Args)
+				for _, p := range ga {
+					if p.F == "?" {
+						known = false
+					}
+				}
+				if !known {
+					continue
+				}
 			}
 			if provBag(wa) == provBag(ga) {
 				continue
